@@ -83,6 +83,7 @@ struct Outcome {
   Error first_error = Error::kOk;
   std::string output;         // golden-comparable output
   uint64_t exec_result = 0;
+  std::vector<Error> step_results;   // assembler / builder workloads: result of every program step
 };
 
 gen::FuncParams func_params(const Spec& s, uint32_t i) {
@@ -100,7 +101,7 @@ gen::FuncParams func_params(const Spec& s, uint32_t i) {
 // Runs the workload on the objects in `env`. The holder must be initialised by the caller? No: init/attach are part
 // of the workload so that their allocation requests are swept as well; `phase` 0 = full run (init + attach + work),
 // 1 = redo after reinit() (holder initialised, emitters attached as far as they still are).
-Outcome run_workload(const Spec& s, Env& env, int phase) {
+Outcome run_workload(const Spec& s, Env& env, int phase, bool retry_failed_call = false, const Outcome* golden = nullptr) {
   Outcome out;
   CodeHolder& code = *env.code;
   const uint64_t fired_at_start = sim::run_faults_fired_total();
@@ -128,13 +129,31 @@ Outcome run_workload(const Spec& s, Env& env, int phase) {
       gen::GenOptions o; o.steps = s.steps;
       gen::Program p = gen::generate_program(r, s.target, o);
       gen::ApplyCtx ctx;
+      uint64_t fired_seen = sim::run_faults_fired_total();
       for (size_t i = 0; i < p.steps.size(); i++) {
         Error err = gen::apply_step(e, code, p, i, ctx);
         // Programs are generated to be valid; a step that fails in the clean run fails identically in every run and is
         // simply part of the golden output.
-        if (err != Error::kOk && (err == Error::kOutOfMemory || faults_fired_here())) { out.first_error = err; return out; }
+        if (err != Error::kOk && (err == Error::kOutOfMemory || faults_fired_here())) {
+          if (retry_failed_call && golden && sim::run_faults_fired_total() == fired_seen && i < golden->step_results.size() && golden->step_results[i] != err) {
+            // no allocation failed since the call was repeated, yet it fails (differently from the failure-free run)
+            sim::fail("c15:repeated-call-fails", "step %zu failed with error %u when an allocation failed; repeated once memory was available it fails with error %u (the failure-free run gives %u)", i, unsigned(out.first_error), unsigned(err),
+                      unsigned(golden->step_results[i]));
+          }
+          if (retry_failed_call && sim::run_faults_fired_total() > fired_seen) {
+            // "repeating the work once memory is available": the failed call is simply made again
+            fired_seen = sim::run_faults_fired_total();
+            out.first_error = err;
+            gen::undo_failed_step(p, i, ctx);
+            env.eh.reset();
+            i--;
+            continue;
+          }
+          out.first_error = err; return out;
+        }
         env.eh.reset();
       }
+      out.step_results = ctx.results;
       if (s.kind == kWBuilder) STEP(e.finalize());
       STEP(code.flatten());
       Error rerr = code.resolve_cross_section_fixups();
@@ -259,7 +278,28 @@ void faulted_run(const Plan& plan, const Spec& s, const Outcome& golden, const s
   if (fail_after >= 0) sim::set_fail_after(uint8_t(fail_after_kind), fail_after + int64_t(sim::run_request_count(uint8_t(fail_after_kind))));
   uint64_t fired_before = sim::run_faults_fired_total();
   std::unique_ptr<Env> env(new Env(s));
-  Outcome o = run_workload(s, *env, 0);
+  // Aftermath 3 (assembler workload, single fault): the call that failed is repeated on the spot and the workload goes
+  // on; the final output must be the failure-free output.
+  bool retry = aftermath == 3 && s.kind == kWAsm && faults.size() == 1 && !prob_den && fail_after < 0;
+  if (aftermath == 3 && !retry) aftermath = 0;
+  Outcome o = run_workload(s, *env, 0, retry, &golden);
+  if (retry) {
+    uint64_t f = sim::run_faults_fired_total() - fired_before;
+    sim::end_op();
+    if (o.completed && f > 0 && o.first_error != Error::kOk) {
+      sim::count("c15.probe.retried_failed_call");
+      if (o.output != golden.output) {
+        size_t pos = 0; while (pos < o.output.size() && pos < golden.output.size() && o.output[pos] == golden.output[pos]) pos++;
+        size_t ls = o.output.rfind('\n', pos); ls = ls == std::string::npos ? 0 : ls + 1;
+        sim::fail("c15:retried-call-differs-from-golden", "the call that failed with error %u was repeated once memory was available and the workload completed, but its output differs from the failure-free run near:\n  retried: %.120s\n  golden:  %.120s", unsigned(o.first_error),
+                  o.output.c_str() + ls, golden.output.c_str() + (ls < golden.output.size() ? ls : 0));
+      }
+    }
+    else if (!o.completed && f > 0) sim::count("c15.probe.retry_did_not_complete");
+    destroy_env(env, destroy_order);
+    check_no_leaks("after retrying a failed call");
+    return;
+  }
   uint64_t fired = sim::run_faults_fired_total() - fired_before;
   sim::end_op();
   sim::set_fault_probability(uint8_t(prob_kind), 0, 0);
@@ -366,7 +406,7 @@ void execute_sweep(const Plan& plan) {
     if (!sample || n <= uint32_t(sample)) for (uint32_t k = 0; k < n; k++) ks.push_back(k);
     else for (int64_t i = 0; i < sample; i++) ks.push_back(uint32_t(r.below(n)));
     for (uint32_t k : ks) {
-      int aftermath = int(r.below(3)), order = int(r.below(4));
+      int aftermath = int(r.below(4)), order = int(r.below(4));
       char crumb[128];
       snprintf(crumb, sizeof crumb, "single=1 fault_kind=%u fault_ord=%u aftermath=%d destroy_order=%d", unsigned(kind), k, aftermath, order);
       sim::breadcrumb(crumb);
